@@ -190,6 +190,12 @@ class Sim:
         self.steps = 0
         self.failed_seen = False
         self.loss_times = []
+        # the DALI bus as control gear sees it: a frame of an application-extended (device type) command counts as
+        # that command only when the frame before it on the wire was EnableDeviceType of that type
+        self.bus_prev = None
+        self.bus_enabled = True
+        self.bare_dt_frames = []   # (tid, bits, value) of device-type frames that reached the bus without their prefix
+        self.truncated = None      # (virtual time, report kind, bytes delivered) of the "silent mid-frame" fault
 
     # ---- recording ------------------------------------------------------------
     def cur(self):
@@ -208,6 +214,17 @@ class Sim:
         who = self.cur()
         self.wire.append((who, bits, value, twice, len(self.events)))
         self.rec(who, "write", bits, value, twice)
+        ent = self.frames.get((bits, value))
+        dt = ent[2].devicetype if ent is not None else 0
+        if dt:
+            # (the second copy of a send-twice frame the hasseb driver writes itself belongs to the same command)
+            self.bus_enabled = (self.bus_prev == (16, 0xC100 | dt)
+                                or (self.bus_prev == (bits, value) and self.bus_enabled))
+            if not self.bus_enabled:
+                self.bare_dt_frames.append((who, bits, value))
+        else:
+            self.bus_enabled = True
+        self.bus_prev = (bits, value)
 
     def device_vanished(self, fd):
         """the OS marks the fd of an unplugged device readable (EOF/error): the reader, if the
@@ -226,6 +243,9 @@ class Sim:
         if ent is None:
             return None
         tid, name, cmd = ent
+        if cmd.devicetype != 0 and not self.bus_enabled:
+            # no EnableDeviceType in front of it: the gear does not take the frame for this command
+            return "no" if cmd.response is not None else None
         if name in ANSWERS:
             return (ANSWERS[name] + tid) & 0xFF
         if cmd.response is not None:
@@ -378,6 +398,13 @@ class Sim:
                 ch.append(("drop",))
         if b.get("noise", 0) > 0 and (not self.is_hid or self.hid_fd_open()):
             ch.append(("noise",))
+        if (b.get("trunc", 0) > 0 and not self.is_hid and self.drv.is_connected
+                and any(c.started for c in self.callers)):
+            # the gateway goes silent PART-WAY THROUGH a report (cable pulled / power lost while it was transmitting):
+            # only the first k bytes of the next report (or, when it owes none, of an unsolicited one - a stray start
+            # byte) reach the driver, nothing ever follows
+            tgt = self.gw.pending[0] if self.gw.pending else self.gw.noise()
+            ch += [("trunc", k) for k in cfg.get("trunc_bytes", (1, 3)) if 0 < k < len(tgt.data)]
         if self.loop.next_timer() is not None:
             absent = self.is_hid and not self.gw.present
             late = (not self.is_hid) and bool(self.gw.pending) and not cfg.get("allow_late")
@@ -421,6 +448,14 @@ class Sim:
                 self.loop.call_soon(cb, *a)
             else:
                 self.loop.call_soon(self.drv._protocol.data_received, r.data)
+        elif k == "trunc":
+            b["trunc"] -= 1
+            r = self.gw.pending.pop(0) if self.gw.pending else self.gw.noise()
+            self.events[-1] = self.events[-1] + (r.kind, r.seq)
+            self.truncated = (self.loop.time(), r.kind, c[1])
+            self.gw.silent = True          # from now on the gateway reports nothing (it still "hears" what is written)
+            self.gw.clear()
+            self.loop.call_soon(self.drv._protocol.data_received, r.data[:c[1]])
         elif k == "timer":
             if self.is_hid and not self.gw.present:
                 b["absent_timers"] = b.get("absent_timers", 5) - 1
